@@ -9,7 +9,7 @@ package supercard
 // the TBD account, in the commodity named by the "Währung" column, over the "Gutschrift" column when it is
 // filled, otherwise over the NEGATED "Belastung" column; on an error nothing is added. Quiet: nothing is
 // written to the process's standard output.
-//@ def wfParserSU(p *parser) bool := p != nil && p.reader != nil && p.registry != nil && p.registry.accounts != nil && wfCommodities(p.registry.commodities)
+//@ def wfParserSU(p *parser) bool := p != nil && p.reader != nil && p.registry != nil && wfAccounts(p.registry.accounts) && wfCommodities(p.registry.commodities)
 //@     && p.registry.accounts.index != p.registry.commodities.index && wfBuilder(p.builder) && validAccount(p.account)
 //
 //@ func (*parser).parseDate
